@@ -192,7 +192,7 @@ impl Monitor for Mon {
 
 fn default_schedule(rep: &mut Report, apps: &Arc<Vec<Vec<L>>>) {
     // defaults: transmissions at 0, 500, 1500, 3500, 7500, 15500, 31500 ms and failure at 39500 ms
-    let cfg = Cfg { transport: Transport::Unreliable { rto_ms: 500, gran_ms: 1, rm: 16, rc: 7 }, mech: Mech::None, fingerprint: false, max_tx: 10 };
+    let cfg = Cfg { transport: Transport::Unreliable { rto_ms: 500, gran_ms: 1, rm: 16, rc: 7 }, mech: Mech::None, fingerprint: false, max_tx: 10, cred: 0, method: 1 };
     let proto = Mon::new(1, 0, false, TimeDetail::Coarse);
     let mut run = explore::start(&cfg, apps, &proto);
     let mut hist = vec![];
@@ -233,7 +233,7 @@ pub fn run(ctx: &RunCtx) -> i32 {
         for rc in &rcs {
             for rm in rms.clone() {
                 for gran in [1u64, 10, 2000] {
-                    let cfg = Cfg { transport: Transport::Unreliable { rto_ms: rto, gran_ms: gran, rm, rc: *rc }, mech: Mech::None, fingerprint: false, max_tx: 10 };
+                    let cfg = Cfg { transport: Transport::Unreliable { rto_ms: rto, gran_ms: gran, rm, rc: *rc }, mech: Mech::None, fingerprint: false, max_tx: 10, cred: 0, method: 1 };
                     let depth = *rc as usize + 4;
                     jobs.push((cfg, 1, 0, false, depth, TimeDetail::Fine));
                 }
@@ -241,7 +241,7 @@ pub fn run(ctx: &RunCtx) -> i32 {
         }
     }
     for t in [100u64, 39500] {
-        let cfg = Cfg { transport: Transport::Reliable { timeout_ms: t }, mech: Mech::None, fingerprint: false, max_tx: 10 };
+        let cfg = Cfg { transport: Transport::Reliable { timeout_ms: t }, mech: Mech::None, fingerprint: false, max_tx: 10, cred: 0, method: 1 };
         jobs.push((cfg, 2, 30, false, 6, TimeDetail::Fine));
     }
     // two, three and four requests sharing the timer, started `stagger` ms apart
@@ -252,11 +252,31 @@ pub fn run(ctx: &RunCtx) -> i32 {
         vec![(100, 3, 2), (100, 2, 16), (37, 3, 1), (37, 5, 3)]
     };
     for (rto, rc, rm) in multi {
-        let cfg = Cfg { transport: Transport::Unreliable { rto_ms: rto, gran_ms: 1, rm, rc }, mech: Mech::None, fingerprint: false, max_tx: 10 };
+        let cfg = Cfg { transport: Transport::Unreliable { rto_ms: rto, gran_ms: 1, rm, rc }, mech: Mech::None, fingerprint: false, max_tx: 10, cred: 0, method: 1 };
         for st in &staggers {
             jobs.push((cfg.clone(), 2, *st, false, if thorough { 14 } else { 11 }, TimeDetail::Fine));
             jobs.push((cfg.clone(), 3, *st, false, if thorough { 13 } else { 10 }, if thorough { TimeDetail::Medium } else { TimeDetail::Coarse }));
             jobs.push((cfg.clone(), 4, *st, false, if thorough { 12 } else { 10 }, TimeDetail::Coarse));
+        }
+        // staggers that make two requests share a deadline exactly: differences between two points of the schedule
+        // (retransmission instants and the final deadline), so that equal expiry instants meet in the shared timer
+        {
+            let mut pts: Vec<u64> = (0..rc).map(|k| ((1u64 << k) - 1) * rto).collect();
+            pts.push(((1u64 << (rc - 1)) - 1 + rm as u64) * rto);
+            let mut ties = std::collections::BTreeSet::new();
+            for a in &pts {
+                for b in &pts {
+                    if a > b {
+                        ties.insert(a - b);
+                    }
+                }
+            }
+            let ties: Vec<u64> = ties.into_iter().collect();
+            let take = if thorough { ties.len() } else { 4 };
+            for st in ties.into_iter().take(take) {
+                jobs.push((cfg.clone(), 2, st, false, if thorough { 13 } else { 10 }, TimeDetail::Medium));
+                jobs.push((cfg.clone(), 3, st, false, if thorough { 12 } else { 9 }, TimeDetail::Coarse));
+            }
         }
         // learned RTO: first transaction answered after 7 ms, the next one runs on the learned interval
         jobs.push((cfg, 2, 40, true, if thorough { 13 } else { 10 }, TimeDetail::Fine));
@@ -280,11 +300,11 @@ pub fn run(ctx: &RunCtx) -> i32 {
         let mut r = Report::new();
         default_schedule(&mut r, &apps);
         // defaults under the deviation-bounded driver (late / early / very late timers, lost and late replies)
-        let cfg = Cfg { transport: Transport::Unreliable { rto_ms: 500, gran_ms: 1, rm: 16, rc: 7 }, mech: Mech::None, fingerprint: false, max_tx: 10 };
+        let cfg = Cfg { transport: Transport::Unreliable { rto_ms: 500, gran_ms: 1, rm: 16, rc: 7 }, mech: Mech::None, fingerprint: false, max_tx: 10, cred: 0, method: 1 };
         let n = super::devrun::explore(&cfg, &apps, &Mon::new(3, 0, false, TimeDetail::Coarse), if thorough { 4 } else { 3 }, &mut r);
         r.add_extra("deviation_bounded_executions", n);
         for (rc, rm) in [(10u32, 32u32), (4, 3)] {
-            let cfg = Cfg { transport: Transport::Unreliable { rto_ms: 100, gran_ms: 1, rm, rc }, mech: Mech::None, fingerprint: false, max_tx: 10 };
+            let cfg = Cfg { transport: Transport::Unreliable { rto_ms: 100, gran_ms: 1, rm, rc }, mech: Mech::None, fingerprint: false, max_tx: 10, cred: 0, method: 1 };
             let n = super::devrun::explore(&cfg, &apps, &Mon::new(3, 0, false, TimeDetail::Coarse), if thorough { 3 } else { 2 }, &mut r);
             r.add_extra("deviation_bounded_executions", n);
         }
